@@ -39,7 +39,14 @@ fn format_special_type(
                 self.format_type(rtype2, generic_types)?
             )),
             SpecialRustType::Unit => Ok("undefined".into()),
-            SpecialRustType::DateTime => Ok("Date".into()),
+            SpecialRustType::DateTime => {
+                // `Date` needs the reviver / replacer helpers wherever it occurs, not only as
+                // the whole type of a struct field (where `write_field` registers it).
+                self.types_for_custom_json_translation
+                    .entry("Date".to_owned())
+                    .or_default();
+                Ok("Date".into())
+            }
             SpecialRustType::String => Ok("string".into()),
             SpecialRustType::Char => Ok("string".into()),
             SpecialRustType::I8
